@@ -1,0 +1,25 @@
+//go:build verif
+
+package packet
+
+// VerifC05Done reports whether Close has been called on the reader.
+func (r *Reader) VerifC05Done() bool {
+	r.mu.Lock()
+	defer r.mu.Unlock()
+	return r.done
+}
+
+// VerifC05Done reports whether Close has been called on the writer.
+func (w *Writer) VerifC05Done() bool {
+	w.mu.RLock()
+	defer w.mu.RUnlock()
+	return w.done
+}
+
+// VerifC05Sizes returns the sizes of the tracer's maps in declaration order:
+// hooks, sources, targets, receives, reads, writes, reader.
+func (t *Tracer) VerifC05Sizes() [7]int {
+	t.mu.RLock()
+	defer t.mu.RUnlock()
+	return [7]int{len(t.hooks), len(t.sources), len(t.targets), len(t.receives), len(t.reads), len(t.writes), len(t.reader)}
+}
